@@ -705,6 +705,8 @@ def construct(I, cls, args, kwargs):
             return VSlice(NONE, a[0], NONE)
         return VSlice(a[0], a[1], a[2])
     hook = I.registry.get('construct:' + c.__module__ + '.' + c.__qualname__)
+    if hook is None and c.__name__ == 'cls':
+        hook = None
     if hook is None:
         for k in c.__mro__:
             hook = I.registry.get('construct:' + k.__module__ + '.' + k.__qualname__)
